@@ -222,6 +222,9 @@ def async_facts(docs):
 
 # ------------------------------------------------------------------- schedule_internal
 def sched_facts(docs):
+    """schedule_internal's LocalTask::ExecuteRange: statement tokens (XBody / XFreeSelf / XDefer), the kind of the per-thread reclaim
+    slot (raw pointer: usable after the thread's TLS destructors / owning object: destroyed by them) and whether something reclaims the
+    slot at thread exit"""
     fn = None
     for d in docs:
         for n, ps in astutil.walk(d):
@@ -236,25 +239,70 @@ def sched_facts(docs):
         raise FactError("schedule_internal: LocalTask::ExecuteRange not found")
     body = [c for c in kids(ex[0]) if c.get("kind") == "CompoundStmt"][0]
     fields = [c.get("name") for c in find_all(fn, lambda x: x.get("kind") == "FieldDecl")]
-    xs = []
+    has_this = lambda n: bool(find_all(n, lambda x: x.get("kind") == "CXXThisExpr"))
+
+    def strip(n):
+        while n.get("kind") in ("ExprWithCleanups", "ImplicitCastExpr", "ParenExpr") and len(kids(n)) == 1:
+            n = kids(n)[0]
+        return n
+
+    def refs(n):
+        return [(x.get("referencedDecl") or {}).get("name") for x, _ in astutil.walk(n) if x.get("kind") == "DeclRefExpr"]
+    # per-thread variables declared in the body
+    tls = {}
     for st in kids(body):
-        has_this_arg = False
-        if st.get("kind") == "CXXDeleteExpr" and find_all(st, lambda x: x.get("kind") == "CXXThisExpr"):
-            xs.append("XFreeSelf")
+        if st.get("kind") == "DeclStmt":
+            for v in kids(st):
+                if v.get("kind") == "VarDecl" and v.get("tls"):
+                    tls[v.get("name")] = v.get("type", {}).get("qualType", "")
+    slot = None
+    xs = []
+    copies = set()        # locals initialised from the slot ("previous")
+    for st in kids(body):
+        s = strip(st)
+        k = s.get("kind")
+        if k == "DeclStmt":
+            for v in kids(s):
+                if v.get("kind") == "VarDecl" and not v.get("tls") and any(r in tls for r in refs(v)):
+                    copies.add(v.get("name"))
             continue
-        if st.get("kind") in ("CallExpr", "CXXMemberCallExpr", "CXXOperatorCallExpr"):
-            k = kids(st)
-            callee_members = member_names(k[0]) if k else []
-            args_this = any(find_all(a, lambda x: x.get("kind") == "CXXThisExpr") for a in k[1:])
-            if args_this:
-                xs.append("XDefer")       # hands `this` to a reclaimer (e.g. slot.reset(this))
+        if k in ("CStyleCastExpr", "NullStmt"):
+            continue
+        if k == "CXXDeleteExpr":
+            if has_this(s):
+                xs.append("XFreeSelf")
+            elif all(r in tls or r in copies for r in refs(s)) and refs(s):
+                pass                       # reclaiming the task this thread finished BEFORE: part of the hand-over
+            else:
+                xs.append("XFreeSelf")     # an unknown delete: fail closed
+            continue
+        if k == "BinaryOperator" and s.get("opcode") == "=" and strip(kids(s)[1]).get("kind") == "CXXThisExpr" and refs(kids(s)[0])[:1] and refs(kids(s)[0])[0] in tls:
+            slot = refs(kids(s)[0])[0]
+            xs.append("XDefer")
+            continue
+        if k in ("CallExpr", "CXXMemberCallExpr", "CXXOperatorCallExpr"):
+            kk = kids(s)
+            callee_members = member_names(kk[0]) if kk else []
+            if any(has_this(a) for a in kk[1:]):
+                slot = ([r for r in refs(kk[0]) if r in tls] or [None])[0]
+                xs.append("XDefer")        # hands `this` to the slot (e.g. slot.reset(this))
                 continue
             if any(m in fields for m in callee_members):
                 xs.append("XBody")
                 continue
-        if find_all(st, lambda x: x.get("kind") == "CXXDeleteExpr"):
-            xs.append("XFreeSelf")
-    return xs
+        xs.append("XFreeSelf" if find_all(s, lambda x: x.get("kind") == "CXXDeleteExpr") else "XBody" if False else "XFreeSelf")
+    ty = (tls.get(slot) or "").replace(" ", "")
+    kind = "SlotRawPointer" if ty.endswith("*") else "SlotOwningObject" if "unique_ptr" in ty else "SlotUnknown"
+    # something reclaims the slot at thread exit: an owning slot does it itself; otherwise a thread_local object of a local class
+    # whose destructor deletes the slot
+    at_exit = kind == "SlotOwningObject"
+    for st in kids(body):
+        for rec in find_all(st, lambda x: x.get("kind") == "CXXRecordDecl" and x.get("completeDefinition")):
+            dt = [c for c in kids(rec) if c.get("kind") == "CXXDestructorDecl"]
+            if dt and slot and any(x.get("kind") == "CXXDeleteExpr" and slot in refs(x) for x, _ in astutil.walk(dt[0])) and \
+                    any(rec.get("name") and rec.get("name") in (tls[v] or "") for v in tls):
+                at_exit = True
+    return xs, kind, at_exit
 
 
 def tryrun_facts(docs):
@@ -761,7 +809,7 @@ def main():
                     defs=["-DRKCOMMON_TASKING_INTERNAL"])
         order, task, kind, dtor_waits, flag_atomic = asynctask_facts(docs)
         pre, post, clos = async_facts(docs)
-        xs = sched_facts(docs)
+        xs, slot_kind, slot_at_exit = sched_facts(docs)
         docs2 = dump(repo, inc, os.path.join(repo, "rkcommon/tasking/detail/enkiTS/TaskScheduler.cpp"), "enki::TaskScheduler",
                      os.path.join(work, "c02_tryrun.json"))
         dec_after, seq = tryrun_facts(docs2)
@@ -826,6 +874,9 @@ Definition async_body_src : list aev := %s.
 
 (* schedule_internal: statements of LocalTask::ExecuteRange *)
 Definition exec_range_src : list xstmt := %s.
+(* the per-thread reclaim slot: a plain pointer stays usable after the thread's TLS destructors have run; is it reclaimed at thread exit *)
+Definition reclaim_slot_kind_src : slotkind := %s.
+Definition reclaim_at_thread_exit_src : bool := %s.
 (* TaskScheduler::TryRunTask: ExecuteRange / AtomicAdd(m_RunningCount) sequence "%s" *)
 Definition tryrun_dec_after_exec_src : bool := %s.
 (* wake-up handshake: WakeThreads reads m_NumThreadsWaiting behind a full barrier / WaitForTasks increments it atomically first *)
@@ -837,12 +888,12 @@ Definition wait_fenced_src : bool := %s.
        coq_list(glue["tbb"][2]), coq_list(glue["omp"][2]), coq_list(glue["int"][2]), coq_list(glue["dbg"][2]), a_unknown,
        pipe["WriterTryReadFront"], pipe["ReaderTryReadBack"], pipe["WriterTryWriteFront"],
        wcond, coq_list(sdsteps), b(dtor_ok), b(drains_first), wpol,
-       coq_list(pre), coq_list(post), coq_list(clos), coq_list(xs), seq, b(dec_after), b(wake_fenced), b(wait_fenced))
+       coq_list(pre), coq_list(post), coq_list(clos), coq_list(xs), slot_kind, b(slot_at_exit), seq, b(dec_after), b(wake_fenced), b(wait_fenced))
     old = open(out).read() if os.path.exists(out) else None
     if old != txt:
         open(out, "w").write(txt)
-    print("facts: order=%s task=%s get=%s dtor_waits=%s atomic=%s | async pre=%s post=%s body=%s | exec_range=%s tryrun=%s wake_fenced=%s wait_fenced=%s | flag stores=%s loads=%s | glue=%s async_unknown=%s pipe=%s teardown=%s wake_policy=%s"
-          % (order, task, kind, dtor_waits, flag_atomic, pre, post, clos, xs, seq, wake_fenced, wait_fenced, st_orders, ld_orders, glue, a_unknown, pipe, (wcond, sdsteps, dtor_ok, drains_first), wpol))
+    print("facts: order=%s task=%s get=%s dtor_waits=%s atomic=%s | async pre=%s post=%s body=%s | exec_range=%s tryrun=%s wake_fenced=%s wait_fenced=%s | flag stores=%s loads=%s | glue=%s async_unknown=%s pipe=%s teardown=%s wake_policy=%s slot=%s/%s"
+          % (order, task, kind, dtor_waits, flag_atomic, pre, post, clos, xs, seq, wake_fenced, wait_fenced, st_orders, ld_orders, glue, a_unknown, pipe, (wcond, sdsteps, dtor_ok, drains_first), wpol, slot_kind, slot_at_exit))
 
 
 if __name__ == "__main__":
